@@ -55,6 +55,15 @@ def history(rng, weights=None, nops=(15, 60), bits_choices=(8, 9, 12, 16), imax_
             ks = mk_keys(rng, rng.randint(*nkeys), first=(0xff,), mid=(0xff, 0xfe))
         elif prof < 0.2:     # lowest buckets
             ks = mk_keys(rng, rng.randint(*nkeys), first=(0,), mid=(0, 1))
+        elif prof < 0.3:     # keys that differ only in the HIGH bits of a byte: same bucket under bit sizes that are not multiples of 8
+            ks = mk_keys(rng, rng.randint(*nkeys), first=(5, 0x1b), mid=(0x1b, 0x2b, 0x3b))
+            # twins: the same digest except for the high nibble of byte 1 (or byte 2): distinct keys, neither a prefix of the other,
+            # that fall into one bucket and agree on every whole byte behind the bucket bits when the bit size is 9..15 (17..23)
+            for k in list(ks[:3]):
+                j = rng.choice((3, 3, 4))
+                t = bytearray(k); t[j] ^= 0x30
+                if bytes(t) not in ks:
+                    ks.append(bytes(t))
         else:
             ks = mk_keys(rng, rng.randint(*nkeys))
     lines = ["cfg primary=mh bits=%(bits)d imax=%(imax)d pmax=%(pmax)d imm=%(imm)d" % cfg]
@@ -115,5 +124,24 @@ def add_drain(rng, text):
         lines.append("remove " + k)
     lines.append("flush")
     lu = rng.randint(10, 94)
+    if rng.random() < 0.25:
+        return budget_drain_history(rng)
     lines += ["pgc %d" % lu, "igc 1", "pgc %d" % lu, "igc 0", "pgc %d" % lu, "igc 1", "#fixedpoint", "pgc %d" % lu, "igc 1", "igc 0"]
+    return "\n".join(lines) + "\n"
+
+
+def budget_drain_history(rng):
+    """C11 with time-limited index cycles only (reap-only, resuming at their cursor): they too must release every unreferenced
+    file. Ten keys, each alone in its bucket, are written first and never touched again, so the FIRST index file stays
+    referenced (it cannot simply be unlinked) and is expensive to walk: a cycle whose time limit lets it walk one file has
+    to RESUME behind it to make progress. The budget (successful context polls) is a little more than one full file."""
+    keeps = ["1206%02x0707070733" % (0x30 + i) for i in range(10)]
+    ks = [k.hex() for k in mk_keys(rng, 6, first=(5, 6, 7))]
+    lines = ["cfg primary=mh bits=8 imax=300 pmax=1073741824 imm=0"] + ["put %s 6b656570" % k for k in keeps] + ["flush"]
+    for _ in range(rng.randint(45, 70)):
+        lines += ["put %s %s" % (rng.choice(ks), hexv(rand_val(rng) or b"x")), "flush"]
+    lines += ["remove %s" % k for k in ks] + ["flush", "pgc 50", "pgc 50"]
+    # walking the first file costs 11 polls (10 referenced records + end of file): the budget leaves exactly one more poll, so
+    # a cycle that does not resume behind the first file can never get past the first span of the second
+    lines += ["igcb 0 12"] * 120 + ["#budgeted-drain"]
     return "\n".join(lines) + "\n"
